@@ -101,6 +101,13 @@ impl Lock<'_> {
         let mut stopped = false;
         for op in ops {
             let buf = offered(&op, &self.t.input, self.c);
+            if let Some((ha, hb)) = obs {
+                for h in [ha, hb] {
+                    let mut st = h.st();
+                    st.raised.clear();
+                    st.zeroes = 0;
+                }
+            }
             let ra = apply(a, &op, buf);
             let rb = apply(b, &op, buf);
             self.stats.client_calls += 2;
@@ -136,6 +143,19 @@ impl Lock<'_> {
             if matches!(rb, OpResult::Panic(_) | OpResult::NoProgress) {
                 // the reference itself misbehaves: that is C06's finding, not a mode difference
                 self.stats.probe("reference_failed");
+                return Ok(());
+            }
+            // several inner failures within one formatted write (a Display impl that keeps going):
+            // which of them surfaces depends on the formatting strategy, both sides failing is enough
+            let several_failures = obs
+                .map(|(ha, hb)| {
+                    let (sa, sb) = (ha.st(), hb.st());
+                    sa.raised.len() + sa.zeroes as usize > 1 || sb.raised.len() + sb.zeroes as usize > 1
+                })
+                .unwrap_or(false);
+            if several_failures && matches!((&ra, &rb), (OpResult::Err(_), OpResult::Err(_))) && ra != rb {
+                self.stats.probe("several_inner_failures_in_one_call");
+                self.failed_all = true;
                 return Ok(());
             }
             if ra != rb {
